@@ -126,6 +126,101 @@ def _distance_witness(chk, binary, idx_deps):
                            "if (l == T(0)) return distanceTo(line.pos); T d = (n ^ (line.pos - pos)) / l; return (d >= 0) ? d : -d;"}
 
 
+# ---------------------------------------------------------------------------
+# exact-arithmetic failing-input search for the functions whose decisions have boundaries (triangle edges, tangent and
+# zero sphere roots): the regenerated Gen definitions are evaluated at Rat (square root: exact on the perfect squares
+# that occur) on rational configurations INCLUDING the boundary cases, against answers computed here with Fractions
+# from the geometric definition (not from the code).
+
+from fractions import Fraction as Fr
+
+RAT_PRELUDE = """
+def rsqrt (x : Rat) : Rat := (Nat.sqrt x.num.natAbs : Rat) / (Nat.sqrt x.den : Rat)
+def fr (r : Rat) : String := s!"{r.num}/{r.den}"
+def fv (v : ImathVerif.V3 Rat) : String := fr v.x ++ " " ++ fr v.y ++ " " ++ fr v.z
+"""
+
+
+def _q(x):
+    x = Fr(x)
+    return "((%d : Rat) / %d)" % (x.numerator, x.denominator)
+
+
+def _extra_args(meta):
+    out = []
+    for e in troute.EXTRA_ORDER:
+        if e in (meta.get("extra") or "").split(","):
+            out.append({"tmin": "((1 : Rat) / 1024)", "tmax": "(1048576 : Rat)", "teps": "((1 : Rat) / 64)", "sqrt": "rsqrt"}.get(e, "rsqrt"))
+    return " ".join(out)
+
+
+def rat_grid_search(chk, index, which, binary=None, idx_deps=()):
+    meta = {d["name"]: d for d in index}
+    cases, lines = [], ["import ImathVerif.Gen.C15Algo", "import ImathVerif.Gen.C15Sphere", "open ImathVerif ImathVerif.Gen", RAT_PRELUDE]
+    if which == "triangle" and "LineAlgo.intersect" in meta:
+        ex = _extra_args(meta["LineAlgo.intersect"])
+        v0, v1, v2 = (0, 0, 0), (3, 0, 0), (0, 4, 0)          # edge lengths 3, 5, 4; normal (v2-v1)x(v1-v0) = (0,0,-12)
+        for up in (1, -1):
+            for i in range(-2, 9):
+                for j in range(-2, 10):
+                    x, y = Fr(i, 2), Fr(j, 2)
+                    b1, b2 = x / 3, y / 4
+                    b0 = 1 - b1 - b2
+                    hit = b0 >= 0 and b1 >= 0 and b2 >= 0
+                    front = (up == -1)                          # dir = (0,0,-up); dir . N = 12*up < 0 iff up = -1
+                    cases.append({"fn": "LineAlgo.intersect", "input": {"line.pos": [str(x), str(y), str(up)], "line.dir": [0, 0, -up], "v0": v0, "v1": v1, "v2": v2},
+                                  "expect": ("1 %s %s 0/1 %s %s %s %d" % (_f(x), _f(y), _f(b0), _f(b1), _f(b2), 1 if front else 0)) if hit else "0",
+                                  "class": "on-edge-or-vertex" if hit and 0 in (b0, b1, b2) else ("inside" if hit else "outside")})
+                    call = "(LineAlgo.intersect %s ⟨⟨%s, %s, %s⟩, ⟨0, 0, %s⟩⟩ ⟨0, 0, 0⟩ ⟨3, 0, 0⟩ ⟨0, 4, 0⟩)" % (ex, _q(x), _q(y), _q(up), _q(-up))
+                    lines.append('#eval IO.println (let r := %s; "RATGRID %d " ++ (if r.1 then "1 " ++ fv r.2.1 ++ " " ++ fv r.2.2.1 ++ (if r.2.2.2 then " 1" else " 0") else "0"))' % (call, len(cases) - 1))
+    if which == "sphere" and "Sphere3.intersectT" in meta:
+        ex = _extra_args(meta["Sphere3.intersectT"])
+        for (py, pz, sr) in ((0, 0, 5), (3, 0, 4), (4, 0, 3), (3, 4, 0), (5, 0, 0), (6, 0, None), (4, 4, None)):
+            for i in range(-16, 17):
+                px = Fr(i, 2)
+                if sr is None:
+                    exp, cls = "0", "miss"
+                else:
+                    t0, t1 = -px - sr, -px + sr
+                    if t0 >= 0: exp, cls = "1 " + _f(t0), ("root-at-zero" if t0 == 0 else ("tangent" if sr == 0 else "outside-in-front"))
+                    elif t1 >= 0: exp, cls = "1 " + _f(t1), ("root-at-zero" if t1 == 0 else "origin-inside")
+                    else: exp, cls = "0", "behind"
+                cases.append({"fn": "Sphere3.intersectT", "input": {"sphere": [0, 0, 0, 5], "line.pos": [str(px), py, pz], "line.dir": [1, 0, 0]}, "expect": exp, "class": cls})
+                call = "(Sphere3.intersectT %s ⟨⟨0, 0, 0⟩, 5⟩ ⟨⟨%s, %s, %s⟩, ⟨1, 0, 0⟩⟩)" % (ex, _q(px), _q(py), _q(pz))
+                lines.append('#eval IO.println (let r := %s; "RATGRID %d " ++ (if r.1 then "1 " ++ fr r.2 else "0"))' % (call, len(cases) - 1))
+    if not cases:
+        return None
+    rc, out = lib.lean_run_file("\n".join(lines) + "\n", timeout=900, name="c15grid")
+    got = dict((int(m.group(1)), m.group(2).strip()) for m in re.finditer(r"RATGRID (\d+) ([^\n]*)", out))
+    if len(got) < len(cases) // 2:
+        lib.log("rat_grid_search(%s): could not evaluate: %s" % (which, out[-400:]))
+        return None
+    chk.extra.setdefault("rat_grid_search", {})[which] = {"cases": len(cases), "evaluated": len(got)}
+    bad = [(i, c) for i, c in enumerate(cases) if i in got and got[i] != c["expect"]]
+    if not bad:
+        return None
+    i, c = bad[0]
+    real = None
+    if binary:
+        nums = []
+        for k, v in c["input"].items():
+            nums += [repr(float(Fr(str(x)))) for x in v]
+        cmd = [binary, "real", c["fn"]] + nums
+        for d in idx_deps:
+            cmd += ["--idx", d]
+        rc2, o2 = lib.sh(cmd, timeout=120)
+        real = o2.strip().split("\n")[-1] if o2.strip() else None
+    return {"real_code_at_double": real, "function": c["fn"], "failing_input": c["input"], "class": c["class"], "expected_from_the_geometric_definition": c["expect"],
+            "model_at_Rat": got[i], "output_format": "hit pt.x pt.y pt.z b.x b.y b.z front  |  hit t", "falsified_cases": len(bad),
+            "classes_falsified": sorted(set(c2["class"] for _, c2 in bad)),
+            "evaluated_at": "Rat (exact), Gen definitions regenerated from the current tree, sqrt exact on the perfect squares that occur"}
+
+
+def _f(x):
+    x = Fr(x)
+    return "%d/%d" % (x.numerator, x.denominator)
+
+
 def run(chk):
     chk.trusted = ["Lean 4.33 kernel; axioms propext/Classical.choice/Quot.sound at most", "Mathlib's ordered-field algebra (ring, field_simp, linarith)",
                    "translator harness/sym (T = Sym path extraction; Vec::length and Plane3::set(p1,p2,p3) modular), validated each run by TV "
@@ -166,6 +261,12 @@ def run(chk):
             w = distance_witness(chk, bins.get("sym_c15"), [leaf_idx]) if bins.get("sym_c15") else None
             if w:
                 return w
+        # decisions with boundaries: exact evaluation of the model on rational configurations incl. the boundary cases
+        which = "triangle" if (name.startswith("tri_") or name.startswith("LineAlgo_intersect")) else ("sphere" if name.startswith("Sphere3_intersect") else None)
+        if which:
+            g = rat_grid_search(chk, index, which, binary=bins.get("sym_c15"), idx_deps=[leaf_idx])
+            if g:
+                return dict(g, key="theorem:" + name)
         # statements without hypotheses: evaluate them at Rat on random inputs
         rep = troute.lean_search(chk, PROPS, name, IMPORTS, ["ImathVerif", "ImathVerif.Geo"], binary=bins.get("sym_c15"), idx_deps=[leaf_idx])
         if rep:
